@@ -142,6 +142,63 @@ pub fn check_size(c: &SizeCase, st: &mut Stats) -> Result<(), String> {
     if rebuilt != page {
         return Err(format!("from_bytes({w},{h}, p.as_bytes()) != p for a new page"));
     }
+    // copies: clone() and clone_from() into destinations that held a longer page, a shorter page, a same-size page and
+    // a borrowed page before - the copy has the source's bytes (header, data, padding, length) whatever was there
+    {
+        let mut src = page.clone();
+        if w > 0 && h > 0 {
+            src.set_pixel(w - 1, h - 1, true);
+            src.set_pixel(w / 2, 0, true);
+        }
+        let src_bytes = src.as_bytes().to_vec();
+        let long_buf: Vec<u8> = (0..total_len(w + 5, h + 9)).map(|i| 0x80 | i as u8).collect();
+        let dests: Vec<(&str, Page<'_>)> = vec![
+            ("a longer owned page", { let mut d = Page::new(PageId(0xEE), w + 30, h + 8); d.set_all_pixels(true); d }),
+            ("a shorter owned page", Page::new(PageId(0xED), w / 2, h / 2)),
+            ("an empty owned page", Page::new(PageId(0xEC), 0, 0)),
+            ("a same-size owned page", { let mut d = Page::new(PageId(0xEB), w, h); d.set_all_pixels(true); d }),
+            ("a borrowed longer page", Page::from_bytes(w + 5, h + 9, &long_buf[..]).map_err(|e| format!("from_bytes rejected the padded length: {e}"))?),
+        ];
+        for (what, mut dest) in dests {
+            catch(|| dest.clone_from(&src)).map_err(|p| format!("clone_from into {what} panicked: {p}"))?;
+            st.eval();
+            if dest.as_bytes() != &src_bytes[..] || dest.width() != w || dest.height() != h || dest.id() != src.id() {
+                return Err(format!(
+                    "clone_from of a {w}x{h} page into {what}: the copy has {} bytes (dimensions {}x{}), the source {} bytes",
+                    dest.as_bytes().len(),
+                    dest.width(),
+                    dest.height(),
+                    src_bytes.len()
+                ));
+            }
+            if dest != src {
+                return Err(format!("clone_from of a {w}x{h} page into {what}: the copy does not equal its source"));
+            }
+            match catch(|| Page::from_bytes(w, h, dest.as_bytes().to_vec())).map_err(|p| format!("from_bytes panicked: {p}"))? {
+                Ok(again) if again == src => {}
+                Ok(_) => return Err(format!("clone_from into {what}: the page rebuilt from the copy's bytes differs from the source")),
+                Err(e) => return Err(format!("clone_from into {what}: from_bytes rejects the copy's bytes: {e}")),
+            }
+            // the copy is independent of its source
+            if w > 0 && h > 0 {
+                dest.set_pixel(0, h - 1, true);
+                dest.set_pixel(w - 1, h - 1, false);
+                if src.as_bytes() != &src_bytes[..] {
+                    return Err(format!("editing a copy made by clone_from into {what} changed the source page"));
+                }
+            }
+        }
+        let mut list: Vec<Page<'_>> = vec![Page::new(PageId(1), w + 30, h + 8), Page::new(PageId(2), 1, 1)];
+        let from = vec![src.clone(), src.clone(), page.clone()];
+        list.clone_from(&from);
+        if list != from || list.iter().zip(&from).any(|(a, b)| a.as_bytes() != b.as_bytes()) {
+            return Err(format!("Vec<Page>::clone_from of {w}x{h} pages does not reproduce the pages"));
+        }
+        let cl = src.clone();
+        if cl != src || cl.as_bytes() != &src_bytes[..] {
+            return Err(format!("clone() of a {w}x{h} page differs from its source"));
+        }
+    }
     if nontrivial_size(w, h) {
         st.class("nontrivial-size");
     }
